@@ -373,7 +373,7 @@ ACCESSOR_GUARDS = [
 
 
 def unit():
-    return Unit('client', prelude=['base.rs', 'time.rs', 'delay_queue.rs', 'oneshot_tx.rs', 'transport.rs', 'client_queues.rs'],
+    return Unit('client', prelude=['base.rs', 'time.rs', 'delay_queue.rs', 'oneshot_tx.rs', 'transport.rs', 'server_error.rs', 'client_queues.rs', 'cancellations.rs'],
                 parts=client_table.parts() + dispatch_parts(), rules=RULES,
                 fx_fns=client_table.FX_CALLS + [r'\.complete\(', r'self\.pump_read__closure\(', r'\.pump_read\(', r'\.pump_write\(', r'\.poll_write_request\(', r'\.poll_expired\((?=cx, \|\|)'],
                 fx_prims=[r'response_completion\.send\('], fx_type='Fx<Res>',
